@@ -1,13 +1,39 @@
 (* C18 - every query terminates within a bounded number of SAT calls.
    Statements only; proofs are [exact].
-   PROVED so far (every oracle, i.e. whatever the answers): the complete solver's query makes one
-   SAT call and the stable solver's component step at most two, on every component; every model
-   function is structurally recursive on its fuel or on a list, so every model run terminates.
-   NOT YET PROVED in Coq (measured on every run against the brute-force bound instead): the bounds
-   |base|+|PR|+1 (PR), 2|base|+|PR|+2 (ID), (n+2)|base|+3 (SST, STG) of the
-   MaximalExtensionComputer loops, and that the replay fuel is never exhausted. *)
+   PROVED (every valid SAT oracle - Unknown answers included -, every threshold >= 1, every
+   admissible encoder, every good view of a framework of any size, both certificate flags, every
+   list of arguments, EVERY entry point of [run_query]):
+     - C18_call_bound: the components the query works on ([query_comps]: all connected components,
+       or the merged component of the listed arguments followed by the remaining connected
+       components) form a decomposition of F, and every run - completed, aborted on an Unknown
+       answer, or out of fuel - makes at most the SUM over these components of [comp_bound]
+       SAT calls: 0 (GR), 2 (CO, ST), |base| + |PR| + 1 (PR), 2|base| + |PR| + 2 (ID),
+       (n + 2)|base| + 3 (SST, STG; n = size of the component), where |base| / |PR| count the
+       conflict-free / admissible / complete sets (according to the encoder) / the preferred
+       extensions of the component; and no run panics.
+     - C18_terminates: with fuel >= 2 * comp_bound + 4 for each of these components (the fuel is
+       per loop) no run ends OutOfFuel or Panic: it completes or aborts on an Unknown answer.
+       C18_terminates_sum: fuel >= 2 * (the bound of C18_call_bound) + 4 suffices a fortiori.
+     - C18_*_calls_partial (kept): the per-component counts for CO and ST, for arbitrary oracles.
+   Every model function is structurally recursive on its fuel or on a list, so every model run
+   terminates.
+   NOT proved: that the replay driver's fuel (2 * number of recorded answers + 12, a function of
+   the calls actually made, not of the bound) is never exhausted; this stays a measured property
+   of every run.  That the Rust code behaves like Model.Solvers is the tie.
+   Vocabulary of the whole-framework theorems (Proofs/TopBase.v, TopMax.v, SolverTop.v):
+     view_good g F   the view g (iteration orders of an AAFramework) presents the framework F;
+                     instances: view_of_af of any compact framework, view_of_fw of any store
+                     reachable from new_with_labels by any update history (C01_good_view_compact, C01_good_view_store);
+     supported s q   the trait implementation exists (all but CO-SE, CO-DS, PR-DC, for which the
+                     library delegates to another solver type and the model has no entry point);
+     enc_ok s e      the encoder may be used with the solver type (CO, SST: complete-based; STG:
+                     conflict-free based; PR, ID: complete- or admissible-based; GR, ST: any);
+     al_ok s q F al  nothing for SE queries and for GR / ST; otherwise the listed ids are arguments
+                     of F (the list may be empty and may contain repetitions).
+*)
 From Crusta Require Import Spec.AF Sat.Cnf Sat.Prog Model.Encoders Model.Graph Model.Solvers.
-From Crusta Require Import Proofs.CallBounds.
+From Crusta Require Import Proofs.CallBounds Proofs.Decomp Proofs.SolverBasics.
+From Crusta Require Import Proofs.TopBase Proofs.TopMax Proofs.SolverTop.
 Open Scope prog_scope.
 
 Theorem C18_stable_component_calls_partial : forall oracle thr c in_cc pol s,
@@ -22,5 +48,39 @@ Theorem C18_complete_query_calls_partial : forall oracle thr e F la close s,
   end.
 Proof. exact CallBounds.co_query_calls. Qed.
 
+Theorem C18_call_bound : forall oracle thr g F,
+  valid_oracle oracle -> 1 <= thr -> view_good g F ->
+  forall s q e al fuel cert st0, supported s q -> enc_ok s e -> al_ok s q F al ->
+  decomp_ok F (query_comps s q cert g al) /\
+  match run_query oracle thr fuel s q cert e g al st0 with
+  | Done _ s' | Abort s' | OutOfFuel s' =>
+      calls s' <= calls st0 + total_bound s e (query_comps s q cert g al)
+  | Panic _ => False
+  end.
+Proof. exact SolverTop.top_call_bound. Qed.
+
+Theorem C18_terminates : forall oracle thr g F,
+  valid_oracle oracle -> 1 <= thr -> view_good g F ->
+  forall s q e al fuel cert st0, supported s q -> enc_ok s e -> al_ok s q F al ->
+  (forall c, In c (query_comps s q cert g al) -> 2 * comp_bound s e c + 4 <= fuel) ->
+  match run_query oracle thr fuel s q cert e g al st0 with
+  | OutOfFuel _ | Panic _ => False
+  | _ => True
+  end.
+Proof. exact SolverTop.top_terminates. Qed.
+
+Theorem C18_terminates_sum : forall oracle thr g F,
+  valid_oracle oracle -> 1 <= thr -> view_good g F ->
+  forall s q e al fuel cert st0, supported s q -> enc_ok s e -> al_ok s q F al ->
+  2 * total_bound s e (query_comps s q cert g al) + 4 <= fuel ->
+  match run_query oracle thr fuel s q cert e g al st0 with
+  | OutOfFuel _ | Panic _ => False
+  | _ => True
+  end.
+Proof. exact SolverTop.top_terminates_sum. Qed.
+
 Print Assumptions C18_stable_component_calls_partial.
 Print Assumptions C18_complete_query_calls_partial.
+Print Assumptions C18_call_bound.
+Print Assumptions C18_terminates.
+Print Assumptions C18_terminates_sum.
